@@ -95,6 +95,7 @@ type scriptedServer struct {
 	n       int
 	body200 []byte
 	reqs    []string
+	bodies  [][]byte
 }
 
 func newScripted(script []string, body []byte) *scriptedServer {
@@ -119,11 +120,12 @@ func (s *scriptedServer) handle(conn net.Conn) {
 	if err != nil {
 		return
 	}
-	io.Copy(io.Discard, req.Body)
+	rb, _ := io.ReadAll(req.Body)
 	s.mu.Lock()
 	k := s.n
 	s.n++
 	s.reqs = append(s.reqs, req.Method+" "+req.URL.Path)
+	s.bodies = append(s.bodies, rb)
 	s.mu.Unlock()
 	el := "200"
 	if k < len(s.script) {
@@ -166,7 +168,7 @@ func transient(el string) bool { return el == "500" || el == "503" || el == "RST
 
 func scripted(c *harness.Ctx) {
 	rng := c.Rng
-	op := []string{"get", "get", "has", "store", "index"}[rng.Intn(5)]
+	op := []string{"get", "get", "has", "store", "index", "index-store"}[rng.Intn(6)]
 	retry := []int{0, 1, 2, 3, 5}[rng.Intn(5)]
 	uncompressed := rng.Intn(2) == 0
 	elems := []string{"200", "404", "403", "400", "500", "503", "RST", "SHORT", "500", "RST"}
@@ -222,7 +224,7 @@ func scripted(c *harness.Ctx) {
 		want = "ok"
 	case "404":
 		want = "missing"
-		if op == "store" {
+		if op == "store" || op == "index-store" {
 			want = "error"
 		}
 	}
@@ -264,6 +266,22 @@ func scripted(c *harness.Ctx) {
 			got = "error"
 		} else {
 			got = "ok"
+		}
+	case "index-store":
+		s, err := desync.NewRemoteHTTPIndexStore(u, opt)
+		dsu.Must(err)
+		if err := s.StoreIndex("x.caibx", idx); err != nil {
+			got = "error"
+		} else {
+			got = "ok"
+			// what the server received with the accepted attempt must be the index
+			srv.mu.Lock()
+			last := srv.bodies[len(srv.bodies)-1]
+			srv.mu.Unlock()
+			if !bytes.Equal(last, idxBytes.Bytes()) {
+				c.Violation("index-store-body", "StoreIndex reported success (script %v, error-retry %d) but the accepted PUT carried %d bytes, the index has %d", script, retry, len(last), idxBytes.Len())
+				return
+			}
 		}
 	case "index":
 		s, err := desync.NewRemoteHTTPIndexStore(u, opt)
@@ -466,6 +484,49 @@ func matrix(c *harness.Ctx, i int) {
 			return
 		}
 		c.Count("matrix_cells", 1)
+		// a server that does not verify what it reads (the chunk-server default) in front of a damaged object:
+		// when it cannot even convert the object it must answer with a failure, not with 200
+		if via == "handler" {
+			damage := []string{"empty", "garbage"}[rng.Intn(2)]
+			if damage == "empty" {
+				os.WriteFile(name, nil, 0644)
+			} else {
+				g := make([]byte, 50+rng.Intn(500))
+				rng.Read(g)
+				os.WriteFile(name, g, 0644)
+			}
+			ls2, _ := desync.NewLocalStore(up, desync.StoreOptions{Uncompressed: upstreamU, SkipVerify: true})
+			var conv2 desync.Converters
+			if !serverU {
+				conv2 = desync.Converters{desync.Compressor{}}
+			}
+			srv2 := httptest.NewServer(desync.NewHTTPHandler(ls2, false, false, conv2, ""))
+			ext := ".cacnk"
+			if serverU {
+				ext = ""
+			}
+			resp, herr := http.Get(srv2.URL + "/" + s[:4] + "/" + s + ext)
+			if herr == nil {
+				body, _ := io.ReadAll(resp.Body)
+				resp.Body.Close()
+				cannotConvert := damage == "empty" || (!upstreamU && serverU)
+				if cannotConvert && resp.StatusCode == 200 {
+					c.Violation("server-failure-as-200", "upstream object of %x is %s (upstream uncompressed=%v, server -u=%v): the server cannot produce the chunk, yet it answered 200 with %d bytes", id[:4], damage, upstreamU, serverU, len(body))
+					srv2.Close()
+					return
+				}
+				cl2, _ := desync.NewRemoteHTTPStore(mustURL(srv2.URL+"/"), desync.StoreOptions{Uncompressed: clientU, ErrorRetry: 1, ErrorRetryBaseInterval: time.Millisecond})
+				if ch2, e2 := cl2.GetChunk(id); e2 == nil {
+					if b2, d2 := ch2.Data(); d2 == nil && !bytes.Equal(b2, data) {
+						c.Violation("damaged-delivered", "a verifying client got wrong bytes for %x through a skip-verify server", id[:4])
+						srv2.Close()
+						return
+					}
+				}
+			}
+			srv2.Close()
+			c.Count("damaged_upstream_cells", 1)
+		}
 		if serverU != upstreamU || class == "max" {
 			c.NonTrivial("matrix|%s|c%v|s%v|u%v|%s", via, clientU, serverU, upstreamU, class)
 		}
@@ -678,4 +739,10 @@ func sshBehindHTTP(c *harness.Ctx) {
 	c.Count("ssh_behind_http_requests", 320)
 	c.NonTrivial("ssh-behind-http")
 	c.Sample(map[string]interface{}{"leg": "ssh-behind-http", "clients": 8, "requests": 320})
+}
+
+func mustURL(s string) *url.URL {
+	u, err := url.Parse(s)
+	dsu.Must(err)
+	return u
 }
